@@ -196,7 +196,16 @@ def replay(case):
 def cases():
     return st.builds(
         lambda spec, vseed, rw: {"spec": progs.prune(spec), "vseed": vseed, "rewrite": rw},
-        progs.programs(main_sorts=("f16", "f32", "f64"), max_nodes=18, mixed=True, complex_ok=True, np_consts=True, allow_list=True),
+        progs.programs(
+            main_sorts=("f16", "f32", "f64"),
+            max_nodes=18,
+            mixed=True,
+            complex_ok=True,
+            np_consts=True,
+            allow_list=True,
+            extra_unary=["exp", "log1p", "floor", "sin", "atan", "asinh"],
+            extra_binary=["atan2", "copysign", "hypot", "pow"],
+        ),
         st.integers(0, 2**31 - 1),
         st.booleans(),
     )
